@@ -143,6 +143,7 @@ class Program:
                           indep=0, reopen=0, varn=0, vars=0, rec=0, inq=0)
         self.uses_bput = False
         self.stage = 0
+        self.waitmix_lines = set()
         self.replay_order = [[] for _ in range(self.np)]   # rank -> script lines of the log entries, in replay order
         self.s = Schema(rng, fmt=cfg.fmt, maxdims=3, maxvars=3, maxlen=4)
         if directed:
@@ -639,6 +640,8 @@ class Program:
             return False
         if any(self.pend[q] for q in range(self.np)):
             return False              # BB shows its own pending records early; compared after flushes only
+        if not any(l == 0 for _, l in self.s.dims):
+            return False              # no unlimited dimension
         ln = self.emit('* inq_numrecs 0', kind='inq', expect=list(self.dview), extra=list(self.bbextra), lag=self.lag)
         self.ops.append('OInq %d' % ln)
         self.stats['inq'] += 1
@@ -797,7 +800,7 @@ def dec_buf(hexs, memk, n, layout=('c',)):
         else:
             pos = i
         x = struct.unpack('<' + O.SFMT[memk], body[pos * es:(pos + 1) * es])[0]
-        out.append(int(x) if float(x) == int(x) else x)
+        out.append(int(x) if (x == x and abs(x) != float('inf') and float(x) == int(x)) else x)
     ok_guard = b[:O.GUARD] == b'\xa5' * O.GUARD and b[len(b) - O.GUARD:] == b'\xa5' * O.GUARD
     return out, ok_guard
 
@@ -918,7 +921,9 @@ def d_waitmix(p):
     for q in range(p.np):
         p.emit_iput(q, v0, p.fixed_put(q, v0, [q, 0], [1, 2 + q % 2]), p.free_slot(q))
     p.expect_keys.add(KEY_WAITMIX)
+    n0 = len(p.lines)
     p.op_wait(putall=[q == 0 for q in range(p.np)])
+    p.waitmix_lines = set(range(n0 + 1, len(p.lines) + 1))
     p.op_inq()
     p.close()
 
